@@ -46,11 +46,13 @@ def plan(tier):
     shards = [("pre", i) for i in range(len(DOCS))]
     shards += [("save", sc, di) for sc in range(3)
                for di in range(len(DOCS))]
+    shards += [("save", 3, di) for di in range(2)]
     if tier != "quick":
         shards += [("save2", sc, di) for sc in range(3) for di in range(2)]
     bounds = {"documents": len(DOCS), "scenarios": [
         "yaml-set --backup (YAML target)", "yaml-set --backup (JSON target)",
-        "yaml-merge --overwrite --backup"], "fault_kinds":
+        "yaml-merge --overwrite --backup",
+        "eyaml-rotate-keys --backup (stand-in cipher)"], "fault_kinds":
         list(faults.KINDS), "faults_per_run": 1 if tier == "quick" else 2}
     return shards, bounds
 
@@ -215,6 +217,24 @@ def scenario(sc, wd, di):
                  '{"c": {"d": "old"}, "pad": [%s]}' % ", ".join(
                      '"item %d with padding text"' % i for i in range(60))},
                 "target.json")
+    if sc == 3:
+        from vkit import fake_eyaml
+        from vkit.props import C19
+        kf = C19.keys(wd)
+        okey = C19.keymat(kf, "old")
+        body = "plain: text\nsecret: %s\nlist:\n  - %s\n  - other\n" % (
+            fake_eyaml.encrypt("alpha", okey), fake_eyaml.encrypt("beta", okey))
+        if di == 1:
+            body += "".join("pad%d: value number %d\n" % (i, i)
+                            for i in range(30))
+        files = {"target.yaml": body}
+        for name in kf.values():
+            files[os.path.basename(name)] = open(name).read()
+        return ("eyaml-rotate-keys", [
+            "--oldprivatekey=" + kf["oldpriv"], "--oldpublickey=" +
+            kf["oldpub"], "--newprivatekey=" + kf["newpriv"],
+            "--newpublickey=" + kf["newpub"], "--eyaml=" + C19.STUB,
+            "--backup", target], files, "target.yaml")
     return ("yaml-merge", ["--nostdin", "--overwrite=" + target, "--backup",
                            target, os.path.join(wd, "rhs.yaml")],
             {"target.yaml": DOCS[di] if di != 1 else DOCS[0],
@@ -231,7 +251,7 @@ def save_faults(st, wd, sc, di, pairs):
         # fault-free run: count the calls, check the completed state
         reset(wd, base)
         plan0 = faults.Plan()
-        res = cli.run(tool, argv, cwd=wd, patches=faults.patches(plan0))
+        res = run_tool(tool, argv, wd, faults.patches(plan0))
         st.evaluations += 1
         case0 = {"tool": tool, "argv": [a.replace(wd, "") for a in argv],
                  "doc": base[tname], "stale_bak": stale, "fault": None}
@@ -264,11 +284,24 @@ def save_faults(st, wd, sc, di, pairs):
                "fault": {"k": 3, "kind": "torn"}, "io_calls": plan0.log[:12]})
 
 
+def run_tool(tool, argv, wd, patches):
+    if tool != "eyaml-rotate-keys":
+        return cli.run(tool, argv, cwd=wd, patches=patches)
+    import yamlpath.eyaml.eyamlprocessor as eproc_mod
+    from vkit import fake_eyaml
+    saved = eproc_mod.run
+    eproc_mod.run = fake_eyaml.InProcess()
+    try:
+        return cli.run(tool, argv, cwd=wd, patches=patches)
+    finally:
+        eproc_mod.run = saved
+
+
 def one_fault(st, wd, tool, argv, base, tname, original, stale, k, kind,
               name, sc):
     reset(wd, base)
     fplan = faults.Plan(k, kind)
-    res = cli.run(tool, argv, cwd=wd, patches=faults.patches(fplan))
+    res = run_tool(tool, argv, wd, faults.patches(fplan))
     st.evaluations += 1
     st.transitions += 1
     st.validated += 1
@@ -309,6 +342,8 @@ def replay(case):
             for sc in range(3):
                 for di in range(len(DOCS)):
                     save_faults(st, wd, sc, di, pairs=False)
+            for di in range(2):
+                save_faults(st, wd, 3, di, pairs=False)
     for lst in st.fails.values():
         return lst[0]
     return None
